@@ -259,7 +259,7 @@ fn explore(ctx: &mut Ctx) {
 
     // Huge universes that only the sparse and the run-length vector can represent: gaps of up to 2^60
     // (long run-length codes, wide sparse low parts); chains over {SparseVector, RLVector}.
-    let huge: Vec<BitsDesc> = vec![
+    let mut huge: Vec<BitsDesc> = vec![
         BitsDesc::Runs { pairs: vec![((1u64 << 52) + 12345, 2), (3, 1)], tail: 5 },
         BitsDesc::Runs { pairs: vec![(0, 1), (1 << 48, 1), ((1 << 48) - 1, 2)], tail: 1 << 47 },
         BitsDesc::Runs { pairs: vec![(1 << 60, 3), (1 << 59, 1), (1, 1)], tail: 1 << 61 },
@@ -268,6 +268,15 @@ fn explore(ctx: &mut Ctx) {
         BitsDesc::Runs { pairs: vec![(5, 1), (u64::MAX - 9, 3)], tail: 0 },
         BitsDesc::Runs { pairs: vec![(0, 2), (u64::MAX - 3, 1)], tail: 0 },
     ];
+    // k isolated bits (every fill level of the first run-length block), then a bit beyond 2^63 and two more:
+    // the widest gap code arrives at every position inside a block.
+    for k in 0..=34u64 {
+        let mut pairs: Vec<(u64, u64)> = std::iter::repeat((1u64, 1u64)).take(k as usize).collect();
+        pairs.push(((1 << 63) + 100, 1));
+        pairs.push((5, 1));
+        pairs.push((1 << 34, 2));
+        huge.push(BitsDesc::Runs { pairs, tail: 9 });
+    }
     for bits in &huge {
         if !ctx.mine(bits) {
             continue;
